@@ -232,7 +232,10 @@ def _parse_node(
                         uv = texcoord[texcoord_index].reshape(
                             (len(texcoord_index) * 3, 2)
                         )
-                    vis = visual.texture.TextureVisuals(uv=uv, material=material)
+                    if uv is not None or colors is None:
+                        vis = visual.texture.TextureVisuals(uv=uv, material=material)
+                    # otherwise leave `vis` unset so the vertex colors that
+                    # were parsed are used: a passed visual would hide them
 
                 geom_name = unique_name(geometry.id, contains=meshes, counts=meshes_count)
                 meshes[geom_name] = {
